@@ -16,9 +16,28 @@ TRUSTED11 = [
 ]
 
 
+def init_obligations(res):
+    """the constructors store every option under its own name and no parameter has a mutable (shared) default"""
+    import ast
+    from . import text_props
+    for rel, cls in (("anytree/exporter/jsonexporter.py", "JsonExporter"), ("anytree/importer/jsonimporter.py", "JsonImporter")):
+        f = text_props.fn(res, rel, cls, "__init__")
+        if not f:
+            continue
+        params = [p for p in f.params()[1:]]
+        kw = f.node.args.kwarg.arg if f.node.args.kwarg else None
+        want = sorted(["self.%s = %s" % (p, p) for p in params] + (["self.%s = %s" % (kw, kw)] if kw else []))
+        got = sorted(ast.unparse(s) for s in f.body)
+        text_props.syn(res, "C11", rel + ":%s.__init__/stores-every-option" % cls, got == want, "%s vs %s" % (got, want))
+        defaults = f.node.args.defaults + [d for d in f.node.args.kw_defaults if d is not None]
+        text_props.syn(res, "C11", rel + ":%s.__init__/no-shared-mutable-default" % cls,
+                       all(isinstance(d, ast.Constant) for d in defaults), [ast.unparse(d) for d in defaults])
+
+
 def collect11(res):
     reg, specs = jsonio.build()
     seq_props.collect_specs(res, specs)
+    init_obligations(res)
     for o in res.obligations:
         o.props = set(o.props) | {"C11"}
 
